@@ -10,7 +10,12 @@ func TestMain(m *testing.M) { vkit.Main(m) }
 
 func TestProp_Differential(t *testing.T) { Part.Run(t) }
 
-func TestReplay(t *testing.T) { Part.Replay(t, 1) }
+func TestProp_Long(t *testing.T) { PartLong.Run(t) }
+
+func TestReplay(t *testing.T) {
+	Part.Replay(t, 1)
+	PartLong.Replay(t, 1)
+}
 
 // FuzzDifferential hands the generator's bit stream to the native,
 // coverage-guided fuzzer (thorough tier): the same generator, executor and
